@@ -38,6 +38,7 @@ var specials = []string{
 	"buffertime", "buffertimeorcount", "sampletime", "mergemap-async", "merge-intervals",
 	"subject-publish", "subject-behavior", "subject-replay", "subject-async", "subject-unicast",
 	"share", "sharereplay", "connectable", "tochannel", "windowwhen-inner", "groupby-inner",
+	"subscribe-panics",
 }
 
 func plan(tier string, seed int64) []driver.Case {
@@ -309,6 +310,36 @@ func runSpecial(target string, k int, rng *rand.Rand, start chan struct{},
 	}
 	d := time.Duration(100+rng.Intn(300)) * time.Microsecond
 	switch target {
+	case "subscribe-panics":
+		// the subscribe function hands the emission to workers and then panics while they are
+		// delivering: the Error that reports the panic is one more notification of this observable and
+		// must wait for the callback in progress like any other
+		obs := ro.NewObservable(func(dest ro.Observer[int]) ro.Teardown {
+			var wg sync.WaitGroup
+			entered := make(chan struct{}, 1)
+			for g := 0; g < k; g++ {
+				g := g
+				wg.Add(1)
+				go func() {
+					defer wg.Done()
+					defer func() { recover() }()
+					for i := 0; i < 25; i++ {
+						select {
+						case entered <- struct{}{}:
+						default:
+						}
+						dest.Next(1000*(g+1) + i)
+					}
+				}()
+			}
+			*extraWait = append(*extraWait, wg.Wait)
+			<-entered
+			for i := 0; i < 1+rng.Intn(4); i++ {
+				runtime.Gosched()
+			}
+			panic("subscribe function panics while its workers are delivering")
+		})
+		subscribeInt(obs, target)
 	case "multi-safe":
 		subscribeInt(multi("safe").Observable(), target)
 	case "multi-eventually":
